@@ -2,6 +2,7 @@ package main
 
 import (
 	"fmt"
+	"go/token"
 	"go/types"
 	"math/big"
 	"strings"
@@ -358,7 +359,10 @@ func isStripedWidth(t *Term, sn string, b buf, assume *Facts) bool {
 			continue
 		}
 		want := mkAtom(fmt.Sprintf("len(%s[%s])", sn, pretty(canon(f.Loop.K))), intT)
-		if eqInt(f.Args[1], want) {
+		// a maximum does not depend on the order of the scan: rows visited last-to-first are the same set
+		rev := mkBin(token.SUB, mkBin(token.SUB, f.Loop.Trip, mkInt(1, intT), intT), f.Loop.K, intT)
+		wantRev := mkAtom(fmt.Sprintf("len(%s[%s])", sn, pretty(canon(rev))), intT)
+		if eqInt(f.Args[1], want) || eqInt(f.Args[1], wantRev) {
 			return true
 		}
 	}
